@@ -2,6 +2,9 @@ package main
 
 import (
 	"fmt"
+	"os"
+	"math/rand"
+	"time"
 	"go/constant"
 	"go/token"
 	"go/types"
@@ -10,6 +13,8 @@ import (
 
 	"golang.org/x/tools/go/ssa"
 )
+
+var debugQueries = os.Getenv("VERIF_DEBUG_QUERIES") != ""
 
 type encError struct{ msg string }
 
@@ -74,7 +79,7 @@ func (e *Engine) feasible(st *State, c *Term) (bool, *Env, bool) {
 		return true, st.model, true
 	}
 	as := append(append([]*Term(nil), st.pc...), c)
-	res, model, diag := e.solver.Check(as, true)
+	res, model, diag := e.decide(as)
 	switch res {
 	case Sat:
 		env := NewEnv()
@@ -85,6 +90,75 @@ func (e *Engine) feasible(st *State, c *Term) (bool, *Env, bool) {
 	}
 	e.h.inconclusive = append(e.h.inconclusive, "feasibility query unknown: "+diag)
 	return true, nil, false
+}
+
+// decide answers satisfiability of a conjunction: a direct query under a short
+// cap first; if that is inconclusive on a large DAG, random simulation for a
+// candidate model, then equivalence sweeping, then the final query under the full cap.
+func (e *Engine) decide(as []*Term) (res Result, model map[string]*big.Int, diag string) {
+	if debugQueries {
+		t0 := time.Now()
+		defer func() {
+			fmt.Fprintf(os.Stderr, "[%s] query %d terms -> %s in %.2fs (last assertion: %s)\n", e.h.name, len(e.ts.Cone(as...)), res, time.Since(t0).Seconds(), termString(as[len(as)-1], 2))
+		}()
+	}
+	if !e.h.deadline.IsZero() && time.Now().After(e.h.deadline) {
+		return Unknown, nil, "harness wall-clock budget exhausted"
+	}
+	full := e.solver.timeout
+	nodes := len(e.ts.Cone(as...))
+	if nodes < 400 {
+		return e.solver.Check(as, true)
+	}
+	// simulation: a random assignment satisfying everything is a model candidate the solver confirms
+	vars := e.ts.Vars(as...)
+	rng := rand.New(rand.NewSource(int64(e.h.seed) + 777))
+	fixed := map[string]*big.Int{}
+	for _, a := range as {
+		if a.op == OpEq && a.args[0].op == OpVar && a.args[1].op == OpConst {
+			fixed[a.args[0].name] = a.args[1].bigVal()
+		} else if a.op == OpVar && a.w == 0 {
+			fixed[a.name] = big1
+		} else if a.op == OpNot && a.args[0].op == OpVar {
+			fixed[a.args[0].name] = big0
+		}
+	}
+	for k := 0; k < 6; k++ {
+		env := randomEnv(rng, vars)
+		for n, v := range fixed {
+			env.vals[n] = v
+		}
+		all := true
+		for _, a := range as {
+			if !env.EvalBool(a) {
+				all = false
+				break
+			}
+		}
+		if all {
+			hint := append([]*Term(nil), as...)
+			for _, v := range vars {
+				hint = append(hint, e.ts.Eq(v, e.ts.ConstBig(v.w, env.vals[v.name])))
+			}
+			r2, m2, _ := e.solver.Check(hint, true)
+			if r2 == Sat {
+				e.h.simHits++
+				return r2, m2, ""
+			}
+		}
+	}
+	e.solver.timeout = 5 * time.Second
+	if full < e.solver.timeout {
+		e.solver.timeout = full
+	}
+	res, model, diag = e.solver.Check(as, true)
+	e.solver.timeout = full
+	if res != Unknown {
+		return res, model, diag
+	}
+	sw, stats := e.sweep(as, 10*time.Second, full*4)
+	e.h.sweeps = append(e.h.sweeps, stats)
+	return e.solver.Check(sw, true)
 }
 
 // ---- locals ----
@@ -378,6 +452,11 @@ func (e *Engine) require(st *State, ok *Term, msg string, in ssa.Instruction) bo
 	}
 	bad := e.ts.Not(ok)
 	sat, model, certain := e.feasible(st, bad)
+	if sat && !certain {
+		// undecided: neither a violation nor a proof; recorded as inconclusive by feasible()
+		e.h.inconclusive = append(e.h.inconclusive, "panic condition undecided: "+msg+" at "+e.pos(in))
+		return true
+	}
 	if sat {
 		okSat, okModel, okCertain := e.feasible(st, ok)
 		if !okSat {
